@@ -13,6 +13,8 @@ import TopSearch.Gen.ModelData
 
 set_option linter.unusedSectionVars false
 set_option linter.unusedVariables false
+set_option linter.unusedTactic false
+set_option linter.unreachableTactic false
 
 namespace TopSearch.Props.C19
 open TopSearch TopSearch.ModelData TopSearch.Py
@@ -52,10 +54,11 @@ theorem C19_bridge_formulas (fnI : Fn → α → α) (ρ : Nat → α) :
      Gen.ModelData.unnormResp.formula.eval fnI ρ = unnormF (ρ 0) (ρ 3) (ρ 4) ∧
      Gen.ModelData.unnormTrain.formula.eval fnI ρ = unnormF (ρ 0) (ρ 3) (ρ 4)) := by
   refine ⟨by decide, ?_, ?_, ?_, ?_, ?_, ?_, ?_, ?_⟩ <;>
-    simp only [Gen.ModelData.stdResp, Gen.ModelData.stdTrain, Gen.ModelData.unstdResp,
+    (simp only [Gen.ModelData.stdResp, Gen.ModelData.stdTrain, Gen.ModelData.unstdResp,
       Gen.ModelData.unstdTrain, Gen.ModelData.normResp, Gen.ModelData.normTrain,
       Gen.ModelData.unnormResp, Gen.ModelData.unnormTrain, E.eval, stdF, unstdF, normF,
-      unnormF]
+      unnormF, Xform.formula]
+     try ring)
 
 /-- environment with the array variable `v0` replaced -/
 def setV0 (ρ : Nat → α) (y : α) : Nat → α := fun i => if i = 0 then y else ρ i
